@@ -186,5 +186,6 @@ def run(ctx):
             break
     rep.check(r5, first is not None and first[1][:4] == [0, 0, 0, 1], 'rpc:reply-msg-type', 'first words after the XID: %s' % (first[1] if first else None), br.loc(first[0]) if first else '')
     dispatch_sound(ctx, 'C12', 'a payload reaches (or is kept from) a responder')
+    hand_over_sound(ctx, 'C12')
 
 
